@@ -1,7 +1,7 @@
 (* C01 at AST level: for scalar filters the compiled closures return exactly
    the denotation, and never panic, on every well-formed context. *)
 From Coq Require Import List ZArith NArith Bool Lia ZifyBool.
-From WF Require Import Base.Bytes Sem.RangeSet Spec.C09 Lang.Types Lang.Ast Lang.Context
+From WF Require Import Base.Bytes Sem.RangeSet Sem.Matchers Spec.C09 Lang.Types Lang.Ast Lang.Context
      Sem.Compile Spec.Denote Spec.Typing Proofs.RangeSetProofs Proofs.C09Proofs.
 Import ListNotations.
 
@@ -90,14 +90,23 @@ Proof.
   intros Hp Hop Hv Hl. unfold has_type in Hv. apply andb_true_iff in Hv. destruct Hv as [Hty _].
   apply ty_eqb_eq in Hty.
   destruct t; try discriminate Hp; destruct v as [vb|vs|vz|va|vt vl|vt vl]; try discriminate Hty; clear Hty Hp;
-    destruct op as [|o r|z|p|l|l|l|li name]; try discriminate Hop;
-    try (destruct r; try discriminate Hop); cbn [cmp_fn fst cmp_holds cast_bool cast_int cast_bytes cast_ip].
+    destruct op as [|o r|z|p pf|pat raw|strict pat pf|l|l|l|li name]; try discriminate Hop;
+    try (destruct r; try discriminate Hop);
+    try solve [ (* matches *)
+                unfold op_ok in Hop; cbn [cmp_fn cmp_holds];
+                destruct (regex_compile pat) as [re|]; [|cbn in Hop; discriminate Hop];
+                cbn [fst cast_bytes option_map]; eexists; split; reflexivity ];
+    try solve [ (* wildcard *)
+                unfold op_ok in Hop; cbn [cmp_fn cmp_holds]; unfold wildcard_match;
+                destruct (wparse pat) as [t|]; [|cbn in Hop; discriminate Hop];
+                cbn [fst cast_bytes option_map]; eexists; split; reflexivity ];
+    cbn [cmp_fn fst cmp_holds cast_bool cast_int cast_bytes cast_ip].
   - eexists; split; reflexivity.
   - (* bytes ord *) eexists; split; [reflexivity|]. now rewrite bytes_op_spec.
   - (* contains *) eexists; split; [reflexivity|]. now rewrite occurs_eq.
   - (* bytes in {} *)
     eexists; split; [reflexivity|]. cbn [spec_in_bytes]. f_equal.
-    clear. induction l as [|i l IH]; cbn; [reflexivity|]. now rewrite IH, bytes_eqb_sym.
+    clear. induction l as [|[i fi] l IH]; cbn; [reflexivity|]. now rewrite IH, bytes_eqb_sym.
   - (* bytes in $list *)
     cbn in Hop. destruct (list_index sch TBytes) as [i|] eqn:Ei; [|discriminate].
     apply Nat.eqb_eq in Hop. subst i. cbn [type_of]. rewrite Ei.
@@ -127,7 +136,11 @@ Qed.
 
 (* compile_with's default flag is the nil rule *)
 Lemma cmp_fn_default op : snd (cmp_fn sch op) = nil_result sch op.
-Proof. destruct op as [|o r|z|p|l|l|l|li name]; try reflexivity. destruct r, o; reflexivity. Qed.
+Proof.
+  destruct op as [|o r|z|p pf|pat raw|strict pat pf|l|l|l|li name]; try reflexivity;
+    try (destruct r, o; reflexivity); cbn [cmp_fn nil_result];
+    try (destruct (regex_compile pat); reflexivity); try (destruct (wparse pat); reflexivity).
+Qed.
 
 (* reading a field of a well-formed context *)
 Lemma slots_field fds : forall vals f fd,
